@@ -85,8 +85,8 @@ def check(ctx):
                     ctx.ob("ID-SOURCE", "%s %s: identifier on the wire comes from the allocator (%s)" % (cq, nm, tr.label()),
                            isinstance(mid, tuple) and mid[0] == "facret", where=where(e), function=e.func,
                            construct="%s/id-source/%s" % (e.func, nm), msg="msgId reaching encode() of a %s is %s" % (nm, show(mid)))
-    ctx.floor("allocator call events", n_alloc, 10)
-    ctx.floor("outbound request encodes", n_enc, 10)
+    ctx.floor("allocator call events", n_alloc, 3)
+    ctx.floor("outbound request encodes", n_enc, 3)
     ctx.ob("ID-ALLOC", "one identifier allocator", len(alloc_funcs) == 1, where="src/mqtt/client/factory.py", construct="allocator/count",
            msg="identifier results come from %s" % sorted(alloc_funcs))
     for fq, evs in sorted(alloc_funcs.items()):
@@ -174,7 +174,7 @@ def check(ctx):
                            msg="an iteration of the in-use scan over %s ends (%s) without testing the candidate identifier%s: identifiers of the "
                                "requests skipped there are handed out again while still unfinished" % (
                                    _regs_of(it), bp.exit_kind(), (" under the condition %s" % show(extra[0].term)[:80]) if extra else ""))
-            ctx.floor("in-use scan iterations checked", n_scan, 5)
+            ctx.floor("in-use scan iterations checked", n_scan, 2)
         regs_read = set()
         for x in reads:
             if x.a.get("reg"):
